@@ -114,11 +114,22 @@ structure Handler where
   continueOnError : Bool
 deriving DecidableEq, Repr, Inhabited
 
+/-- What the `to` template of a redirect error handler does for the request at hand.  The template may read whatever
+the client sent (`{{ .Request.Header "X-Login-Url" }}`, query parameters, parts of the URL), so this is an outcome
+for the request, like the outcome of a mechanism: `template.Render` returns an error (`{{ fail … }}`, a missing
+function argument, …), or it returns a string — *any* string: a URL, the empty string (header absent), blanks, several
+lines (multi-line templates, a decoded `%0A` of a query parameter), something no URL parser accepts. -/
+inductive Rendered where
+  | fails
+  | value (s : String)
+deriving DecidableEq, Repr, Inhabited
+
 inductive EHKind where
   /-- `default_error_handler.go` -/
   | default
-  /-- `redirect_error_handler.go`: `renderOk` = the `to` template renders; `code` as configured (0 = not set) -/
-  | redirect (renderOk : Bool) (code : Nat)
+  /-- `redirect_error_handler.go`: `to` = what the `to` template renders to for this request; `code` as configured
+  (0 = not set) -/
+  | redirect (to : Rendered) (code : Nat)
   /-- `www_authenticate_error_handler.go` -/
   | wwwAuthenticate
 deriving DecidableEq, Repr, Inhabited
@@ -201,11 +212,15 @@ def runHandlers : List Handler → String → Ctx → Run (Option Err)
     | .done none c => runHandlers hs s c
     | .done (some e) c => if h.continueOnError then runHandlers hs s c else .done (some e) c
 
-/-- `Execute` of the three real error handlers: returned error and context -/
+/-- `Execute` of the three real error handlers: returned error and context.  The redirect handler does not look at
+the rendered value: whatever string came out of the template — empty, blank, several lines, not a URL — becomes the
+`RedirectTo` of a `RedirectError` that is recorded as pipeline error (the error translators put it into the
+`Location` header as it is); only a rendering *error* makes the handler fail, with `ErrInternal` and nothing
+recorded. -/
 def EHKind.run : EHKind → Err → Ctx → Option Err × Ctx
   | .default, cause, c => (none, c.setPipelineError cause)
-  | .redirect true code, _, c => (none, c.setPipelineError ⟨[], some (redirectCode code)⟩)
-  | .redirect false _, _, c => (some (.ofKind .internal), c)
+  | .redirect (.value _) code, _, c => (none, c.setPipelineError ⟨[], some (redirectCode code)⟩)
+  | .redirect .fails _, _, c => (some (.ofKind .internal), c)
   | .wwwAuthenticate, _, c => (none, c.setPipelineError (.ofKind .authentication))
 
 /-- `compositeErrorHandler.Execute` over `conditionalErrorHandler`s: the first applicable handler decides; a
